@@ -68,6 +68,11 @@ def datasets(seed):
         X = gen.sample_data(r, w, m, v, 24)
         y = np.arange(24) % 3
         out.append(dict(C=C, D=D, w=w, m=m, v=v, X=X, y=y))
+    # a data set of a few thousand rows without cluster structure (the result of a seeded initialisation followed by a few
+    # iterations depends on the start): anything that draws from another generator than the seeded one shows here
+    N = int(r.integers(3100, 3600))
+    w, m, v, _ = gen.gmm_params(r, 2, 2, scales=np.ones(2))
+    out.append(dict(C=2, D=2, w=w, m=m, v=v, X=r.uniform(-1, 1, size=(N, 2)), y=np.arange(N) % 3))
     return out
 
 
@@ -238,6 +243,11 @@ def train(est, data, X, y, rs, stats=None, between=None):
     if est == "kmeans_seeded":
         m = KMeansMachine(2, init_method="k-means||", random_state=rs, max_iter=3, convergence_threshold=None).fit(X)
         return [np.sort(np.asarray(m.centroids_), axis=0)]
+    if est == "gmm_kmeans_seeded":  # a GMM initialised by its own (seeded) k-means trainer
+        from bob.learn.em import GMMMachine
+        g = GMMMachine(2, random_state=rs, max_fitting_steps=1, convergence_threshold=None,
+                       k_means_trainer=KMeansMachine(2, init_method="k-means||", random_state=rs, max_iter=2, convergence_threshold=None)).fit(X)
+        return [np.sort(np.asarray(g.means), axis=0)]
     if est == "gmm_explicit":
         g = gen.mk_gmm(data["w"], data["m"], data["v"], max_fitting_steps=3, convergence_threshold=None, update_variances=True, update_weights=True).fit(X)
         return [g.weights, g.means, g.variances]
@@ -287,14 +297,22 @@ def train(est, data, X, y, rs, stats=None, between=None):
 
 def oracle(est, data, seed):
     r = np.random.default_rng(seed)
+    known = None
     X, y = data["X"], data["y"]
+    ids = np.arange(3)
+    if est == "wccn" and r.random() < 0.6:
+        # class ids are names, not positions: any integers will do (client numbers such as 9, 1, 17 - ids that share a hash slot
+        # of a small set are iterated in insertion order, i.e. in the order of the samples)
+        k0 = int(r.integers(0, 8))
+        ids = k0 + 8 * r.permutation(3) * int(r.choice([1, 1, 4, 128]))
+    y0, y = y, ids[y]
     base = core.impl(lambda: train(est, data, X, y, 3))
     if isinstance(base, core.ImplError):
         # training fails on this data set (degenerate UBM, ...): outside this property, provided it fails the same way again
         again = core.impl(lambda: train(est, data, X, y, 3))
         if not isinstance(again, core.ImplError) or again.kind != base.kind:
             return {"sig": f"depends-on-history:{est}", "what": f"{est}: first fit raised {base!r}, an identical second fit gave {again!r}"}
-        if "LinAlg" not in base.kind and est not in ("kmeans_reuse", "gmm_shared_trainer", "kmeans_seeded"):
+        if "LinAlg" not in base.kind and est not in ("kmeans_reuse", "gmm_shared_trainer", "kmeans_seeded", "gmm_kmeans_seeded"):
             # ... and in the same way for every order of the samples (a numerical breakdown may legitimately come and go with rounding)
             for _ in range(4):
                 perm = r.permutation(len(X))
@@ -306,14 +324,17 @@ def oracle(est, data, seed):
     perm = r.permutation(len(X)) if est not in ("kmeans_reuse", "gmm_shared_trainer") else np.arange(len(X))  # seeded init: row order is D14's business
     p = core.impl(lambda: train(est, data, X[perm], y[perm], 3))
     if isinstance(p, core.ImplError) or not all(core.close(np.asarray(a, float), np.asarray(b, float), 1e-8, 1e-9) for a, b in zip(base, p)):
-        sig = KNOWN_SIG if est == "kmeans_seeded" else f"depends-on-sample-order:{est}"
-        return {"sig": sig, "what": f"{est}: training on a permutation of the rows gives a different model", "perm": perm}
+        sig = KNOWN_SIG if est in ("kmeans_seeded", "gmm_kmeans_seeded") else f"depends-on-sample-order:{est}"
+        found = {"sig": sig, "what": f"{est}: training on a permutation of the rows gives a different model", "perm": perm}
+        if sig != KNOWN_SIG:
+            return found
+        known = found  # the recorded finding (D14) is about the row order only: the history clause is still checked below
     if est == "ivector":
         return None  # no random_state of its own: the history clause does not apply (C16_global_as_is_depends)
     # class renaming by a permutation of the ids
     if est in ("isv", "isv_dask", "jfa", "jfa_dask", "wccn", "isv_bag", "jfa_bag") + LAZY:
         ren = r.permutation(3)
-        q = core.impl(lambda: train(est, data, X, ren[y], 3))
+        q = core.impl(lambda: train(est, data, X, ids[ren[y0]], 3))
         if isinstance(q, core.ImplError) or not all(core.close(np.asarray(a, float), np.asarray(b, float), 1e-8, 1e-9) for a, b in zip(base, q)):
             return {"sig": f"depends-on-class-names:{est}", "what": f"{est}: renaming the classes by {ren.tolist()} gives a different model", "renaming": ren}
     # global generator state and earlier fits
@@ -326,7 +347,7 @@ def oracle(est, data, seed):
     again = core.impl(lambda: train(est, data, X, y, 3, between=activity))
     if isinstance(again, core.ImplError) or not all(np.array_equal(np.asarray(a), np.asarray(b)) for a, b in zip(base, again)):
         return {"sig": f"depends-on-history:{est}", "what": f"{est}: same data, configuration and random_state after other global-RNG activity gives a different model"}
-    return None
+    return known
 
 
 def search(ctx):
@@ -341,6 +362,14 @@ def search(ctx):
         if f and f["sig"] not in seen:
             seen.add(f["sig"])
             f["input"] = {"estimator": est, "dataset_seed": ctx.seed + 1, "dataset": (i // len(ests)) % 2, "oracle_seed": ctx.seed * 1000 + i}
+            fails.append(f)
+    for est in ("kmeans_seeded", "gmm_kmeans_seeded"):
+        ctx.count("search:" + est + ":several-thousand-rows")
+        ctx.case(["s", est, "big"], nontrivial=True)
+        f = oracle(est, data[2], ctx.seed * 1000 + 999)
+        if f and f["sig"] not in seen:
+            seen.add(f["sig"])
+            f["input"] = {"estimator": est, "dataset_seed": ctx.seed + 1, "dataset": 2, "oracle_seed": ctx.seed * 1000 + 999}
             fails.append(f)
     return fails
 
